@@ -108,6 +108,9 @@ def run(ctx):
     # over the planner's files)
     from . import C20
     C20.check_mutable_defaults(ctx, [f for f in ctx.src.py_files('mindsdb_sql') if f.startswith(PLANNER)], 'C09.fresh-step-containers')
+    # (0b) a planner object plans many statements: results registered for one plan (CTE results) may not be visible to the next - a step would read a result of
+    # another plan (C20's rule)
+    C20.check_planner_reuse(ctx, 'C09.plan-state-reset')
     # (0b) a CTE's result is referenced by the steps that read it: the table that maps CTE names to results is written (plan_cte) and read
     # (get_integration_select_step) under the same spelling (C08's table, re-run)
     from . import C08
